@@ -89,7 +89,8 @@ CHECKS = {
               "dimension and tensor entry symbolic (pointwise at a Skolem index; each norm is shown to range over the right "
               "tensor); _compute_stats/gram_weighted_update weights and contraction axes incl. the statistics interval; dense "
               "preconditioner application along each axis for 3 preconditioner types as a polynomial identity at small sizes; "
-              "phase order of update_fn; the exponent handed to the root routine (2 x #preconditioned axes or the override, rank 1..4 x 3 types); "
+              "phase order of update_fn; the exponent handed to the root routine (2 x #preconditioned axes or the override, rank 1..4 x 3 types; each "
+              "statistic its own parameter's exponent when a companion parameter is present); "
               "which parameters are preconditioned at all (skip thresholds on the parameter's own shape); both refresh intervals are symbolic in every "
               "_transform_grad task and the refresh cadence of _pmap_compute_preconditioners (shared with C04) is part of the check. preconditioned_grad and the roots enter through contracts. End-to-end float agreement "
               "is not a proof obligation (bounded native reference in the thorough tier)."),
@@ -250,7 +251,7 @@ CHECKS = {
               "but an explanatory rejection is raised, the update has the parameters' structure/shapes/dtype and the state layout is "
               "a fixed point; in sharded mode declared shapes/dtypes and partition specs describe the tree sharded_init_fn builds and "
               "every with_sharding_constraint argument has the spec's rank; lax.cond branch types agree for Tearfree Sketchy under "
-              "jax_enable_x64; Tearfree / SM3 layouts; shared shape-bookkeeping obligations of C06/C13. Whole-configuration-space "
+              "jax_enable_x64; Tearfree / SM3 layouts (incl. Sketchy with ekfac_svd, and a Tearfree Shampoo accept-or-reject grid of shapes); shared shape-bookkeeping obligations of C06/C13. Whole-configuration-space "
               "exception freedom is not claimed."),
         design="7/C07",
         note=TB + " Assertions with a message ('all layers are too small for compression_rank') count as explanatory rejections; "
